@@ -92,15 +92,19 @@ def check(ctx):
             # the filter
             paths = [os.path.join(work, n) for n, _ in docset]
             alluris = sorted(set(u for n, d in docset for m in (d.get("models") or []) for k, u in m["attrs"] if k == "ModelUri") | {UA, "urn:unknown"})
-            for _ in range(3):
+            for fi in range(3):
                 flt = rng.sample(alluris, rng.randint(0, len(alluris))) + ([""] if rng.random() < 0.2 else [])
                 from opcua_tools.nodeset_parser import exclude_files_not_in_namespaces
+                # the third list names some file twice (a caller that concatenates lists): every entry is kept or dropped on its own
+                listed = list(docset) + ([rng.choice(docset) for _ in range(rng.randint(1, 2))] if fi == 2 and docset else [])
+                if fi == 2: rng.shuffle(listed)
+                paths = [os.path.join(work, n) for n, _ in listed]
                 try: kept = ["ok", sorted(os.path.basename(p) for p in exclude_files_not_in_namespaces(list(paths), list(flt)))]
                 except BaseException as e: kept = ["err", type(e).__name__]
-                reqs.append([Sym("c18_filter"), flt, [parsecmp.doc_sx(os.path.join(work, n), d) for n, d in docset]]); meta.append(("filter", flt, docset, kept))
-                ctx.record(dict(case=ci, filter=flt), bool(flt), ["filter"])
+                reqs.append([Sym("c18_filter"), flt, [parsecmp.doc_sx(os.path.join(work, n), d) for n, d in listed]]); meta.append(("filter", flt, listed, kept))
+                ctx.record(dict(case=ci, filter=flt, repeated=fi == 2), bool(flt), ["filter", "repeated-path" if fi == 2 else "distinct-paths"])
                 want = []
-                for n, d in docset:
+                for n, d in listed:
                     uris = ["http://opcfoundation.org/UA", UA] if n.endswith("Opc.Ua.NodeSet2.xml") else [u for m in (d.get("models") or []) for k, u in m["attrs"] if k == "ModelUri" and u]
                     if any(u in flt for u in uris if u): want.append(n)
                 if kept != ["ok", sorted(want)]: ctx.fail("C18/filter", dict(kind="filter", filter=flt, files=[n for n, _ in docset]), "kept %r, expected %r" % (kept, sorted(want)))
